@@ -54,7 +54,14 @@ struct EngineA {
         RunCtx rc{p.get("prop", opt.prop), p.get("profile", opt.profile)};
         st.inc("cfg." + e->cls);
         st.mark("configs", sim::hash_str(e->name.c_str()));
-        return e->run(*e, p, rc, st);
+        Outcome out = e->run(*e, p, rc, st);
+        if (rc.prop == "C17" && !out.ok) {
+            // C17's oracle is the memory-error detector (a report ends the process); functional clauses belong to other properties
+            st.inc("c17_functional_failures_not_judged");
+            Outcome ok; ok.trace_hash = out.trace_hash; ok.preds = out.preds;
+            return ok;
+        }
+        return out;
     }
 };
 
